@@ -79,7 +79,10 @@ impl<'a> G<'a> {
         let s = if self.uni && self.rng.chance(2, 3) { self.rng.pick(UNI_STRS).to_string() } else { self.rng.pick(STRS).to_string() };
         match self.rng.below(5) {
             0 => format!("'{}'", s.replace('\'', "")),
-            1 => format!("[[{}\nsecond line {}]]", s, s),
+            1 => {
+                let mid = if self.uni { self.rng.pick(UNI_STRS).to_string() } else { "middle".to_string() };
+                format!("[[{}\n{} middle {}\nlast line {}]]", s, mid, s, s)
+            }
             2 => format!("[==[{}]==]", s),
             _ => format!("\"{}\"", s),
         }
@@ -213,8 +216,11 @@ impl<'a> G<'a> {
                 self.out.push_str(c);
             }
             5 => {
+                let u = if self.uni { " 😀 длинный 中" } else { "" };
                 self.ind(ind);
-                self.out.push_str("--[[ long\n");
+                self.out.push_str(&format!("--[[ long{}\n", u));
+                self.ind(ind);
+                self.out.push_str(&format!("   more{} text\n", u));
                 self.ind(ind);
                 self.out.push_str("   comment ]]\n");
             }
@@ -520,6 +526,13 @@ pub fn fixed_docs() -> Vec<(&'static str, String)> {
         ("member-completion", "---@class Pt\n---@field x number\n---@field [\"a b\"] number\nlocal pt = {}\nfunction pt:move() end\nlocal n = pt.\nlocal m = pt:\npt.x.\nlocal arr = {}\narr.\n".to_string()),
         ("require-unterminated", "local u = require(\"".to_string()),
         ("require-unterminated-2", "local u = require('\nlocal v = 1\n".to_string()),
+        // multi-line tokens with non-ASCII / astral text on their non-last lines (split path of the semantic-token builder)
+        ("split-long-string-cjk", "local s = [[你好，世界\n第二行 — über\nend]]\nlocal t = 1\n".to_string()),
+        ("split-long-string-astral-crlf", "local s = [[a😀b😀\r\n𝒳𝒳 é\r\nlast]]\r\nlocal t = 1\r\n".to_string()),
+        ("split-long-string-cr", "local s = [==[中文😀\r— ß 😀😀\rz]==]\rlocal t = 1\r".to_string()),
+        ("split-long-comment-astral", "--[[ 😀 комментарий\n   中 😀😀 é\n   конец ]]\nlocal x = 1\n--[==[ 𝒳\r\n𝒳𝒳 ]==]\r\n".to_string()),
+        ("split-doc-codeblock-unicode", "--- описание 😀\n--- ```lua\n--- local z = \"😀中\" -- é\n--- ```\n---@param p string 名前 😀\nlocal function g(p) end\n".to_string()),
+        ("split-string-escape-z", "local s = \"a😀\\z\n   中文\\z\n   end\"\nlocal u = 'é\\\n😀'\n".to_string()),
         ("signature", "---@param a number\n---@param b string\nlocal function sig(a, b) end\nsig(1, \nsig(\n".to_string()),
     ]
 }
